@@ -10,4 +10,4 @@ Extraction "msm_model.ml" run run_op build init_rnode snapshot default_fuel doc_
   sstep wf_op init_store destroy_all cells
   run_wop init_world
   elab_euml elab_basic basic_tag frow_tag frow_guard frow_action
-  spec_trace coreb plain_opb spec_qtrace qplain_opb.
+  spec_trace coreb plain_opb spec_qtrace qplain_opb spec_qtrace_mp11 qbracketedb.
